@@ -20,7 +20,7 @@ pub enum Input {
     None,
 }
 
-fn run_t<T: FromMeta + Dump>(input: &Input) -> Value {
+pub fn run_t<T: FromMeta + Dump>(input: &Input) -> Value {
     match input {
         Input::Meta(m) => outcome(catch(|| T::from_meta(m))),
         Input::Nested(n) => outcome(catch(|| T::from_nested_meta(n))),
@@ -187,7 +187,7 @@ pub fn run_conv(case: &Value) -> Value {
     let r = match target {
         "helper:preserve" => helper(darling::util::parse_expr::preserve_str_literal),
         "helper:parse" => helper(darling::util::parse_expr::parse_str_literal),
-        _ => dispatch(target, &input),
+        _ => dispatch(target, &input).or_else(|| crate::corpus::dispatch(target, &input)),
     };
     match r {
         None => json!({"error": format!("unknown target {}", target)}),
@@ -216,6 +216,9 @@ pub fn run_conv(case: &Value) -> Value {
                 out["twin_out"] = dispatch(twin, &input).unwrap_or_else(|| json!({"error": "unknown twin"}));
             }
             out["pf"] = float_oracle(&echo);
+            if case.get("pairs").is_some() {
+                out["sim"] = Value::Array(crate::errs::sim_table(case));
+            }
             if case["oracles"].as_bool().unwrap_or(false) {
                 out["or"] = syn_oracles(&echo);
             }
